@@ -64,8 +64,11 @@ def subst(t, m):
         fs = [(l, subst(s, m)) for l, s in t[1]]
         tail = t[2]
         if tail in m and tail is not None and tail != "dyn":
-            fs = fs + list(m[tail][1])
-            tail = None
+            if m[tail][0] == "tailvar":
+                tail = m[tail][1]
+            else:
+                fs = fs + list(m[tail][1])
+                tail = None
         return ("rec", fs, tail)
     if k == "forall":
         m2 = {a: b for a, b in m.items() if a != t[1]}
@@ -132,7 +135,7 @@ class Gen:
             if allow_fun:
                 opts += [("fun", 3)]
                 if allow_forall:
-                    opts += [("rank", 1)]
+                    opts += [("rank", 1), ("rowrank", 1)]
         c = rng.weighted(opts)
         if c == "var":
             return tv(rng.choice(tvars))
@@ -151,6 +154,12 @@ class Gen:
                     rng.choice(rvars))
         if c == "fun":
             return fun(self.gen_inner(tvars, rvars, depth - 1, False), self.gen_inner(tvars, rvars, depth - 1, False))
+        if c == "rowrank":
+            # a row-polymorphic function supplied by the caller: forall s. {fs; s} -> {fs; s}
+            sv = self.var("s")
+            ls = rng.shuffle(FIELDS)[:rng.range(0, 2)]
+            rt = ("rec", [(l, self.gen_inner(tvars, rvars, depth - 1, False)) for l in sorted(ls)], sv)
+            return ("forall", sv, "r", fun(rt, rt))
         if c == "rank":
             b = self.var("b")
             body = fun(self.gen_inner(tvars + [b], rvars, depth - 1, False), self.gen_inner(tvars + [b], rvars, depth - 1, False))
@@ -216,10 +225,17 @@ class Gen:
                 out += self.paths("(app %s %s)" % (expr, a), t[2], depth - 1, env, False)
         elif k == "forall":
             # use the polymorphic argument at one instance: a type variable of the scope, or Number
-            insts = [NUM]
-            for _, s, _ in env:
-                insts += _tvars_of(s)
-            out += self.paths(expr, subst(t[3], {t[1]: self.rng.choice(insts)}), depth, env, nonempty)
+            if t[2] == "r":
+                # a row-polymorphic argument: use it at the row variable of a record in scope, or at no tail
+                tails = [("row", [])]
+                for _, s, _ in env:
+                    tails += [("tailvar", r) for r in _tails_of(s)]
+                out += self.paths(expr, subst(t[3], {t[1]: self.rng.choice(tails)}), depth, env, nonempty)
+            else:
+                insts = [NUM]
+                for _, s, _ in env:
+                    insts += _tvars_of(s)
+                out += self.paths(expr, subst(t[3], {t[1]: self.rng.choice(insts)}), depth, env, nonempty)
         return out
 
     def atoms(self, env):
@@ -245,7 +261,7 @@ class Gen:
             b = self.synth(env + [(x, t[1], False)], t[2], depth, use_paths)
             return None if b is None else "(lam %s %s)" % (x, b)
         if same and rng.chance(2, 3):
-            return self.decorate(rng.choice(same), env, depth)
+            return self.decorate(rng.choice(same), env, depth, ty=t)
         if k == "num":
             nums = [e for e, s in cands if s == NUM]
             lens = [e for e, s in cands if s[0] == "arr"]
@@ -303,12 +319,33 @@ class Gen:
                     if v is None:
                         return None
                     e = "(ins %s %s %s)" % (l, e, v)
+            if rng.chance(1, 2):
+                e = self.nest(e, [l for l, _ in t[1]])
             return e
         return None
 
-    def decorate(self, e, env, depth):
+    def nest(self, e, visible):
+        """pass a record that carries a quantified tail through ANOTHER row-polymorphic contract (an
+        annotated identity) that lists all, some or none of its visible fields: the outer sealed tail gets
+        sealed again inside the inner tail and must come back intact"""
+        rng = self.rng
+        names = sorted(visible)
+        c = rng.below(4)
+        if c <= 1:
+            listed = names
+        elif c == 2:
+            listed = []
+        else:
+            listed = sorted(rng.shuffle(names)[:rng.range(0, len(names))])
+        sv, z = self.var("s"), self.var("z")
+        rt = "(rect %s%s)" % (sv, "".join(" (%s dyn)" % l for l in listed))
+        return "(app (ann (forall %s r (-> %s %s)) (lam %s (v %s))) %s)" % (sv, rt, rt, z, z, e)
+
+    def decorate(self, e, env, depth, ty=None):
         """wrappers that do not look at the value"""
         rng = self.rng
+        if ty is not None and ty[0] == "rec" and ty[2] not in (None, "dyn") and rng.chance(1, 2):
+            return self.nest(e, [l for l, _ in ty[1]])
         c = rng.below(10)
         if c == 0:
             y = self.var("z")
@@ -606,6 +643,10 @@ def make_cases(rng, n, want_alias=False):
             if sub <= 3 and (row or sub >= 2):
                 name, tmpl = TAIL_INSPECTORS[sub]
                 lab = row[0][0] if row else "ta"
+                if rng.chance(1, 2):
+                    # first through another row-polymorphic contract: still the outer tail that is touched
+                    e = g.nest(e, [l for l, _ in s[1]])
+                    name = "nested+" + name
                 body = "(seq %s %s)" % (tmpl.replace("E", e).replace("L", lab), c["body"])
                 # reading a field that is not in the tail is a plain missing-field error, not a tail access
                 klass = "tail-inspect"
@@ -632,6 +673,18 @@ def make_cases(rng, n, want_alias=False):
         if len(out) > nout and "feat" not in out[-1]:
             out[-1]["feat"] = features(c["T"])
     return out
+
+
+def _tails_of(t):
+    k = t[0]
+    if k == "fun":
+        return _tails_of(t[1]) + _tails_of(t[2])
+    if k == "arr":
+        return _tails_of(t[1])
+    if k == "rec":
+        here = [t[2]] if t[2] not in (None, "dyn") else []
+        return here + [v for _, s in t[1] for v in _tails_of(s)]
+    return []
 
 
 def _tvars_of(t):
